@@ -56,7 +56,7 @@ var (
 	haproxyReqCaptureFormAll    = "http://localhost:" + haproxyManagePort + "/capture_req_all"
 )
 
-var regexToFindPathParameters = regexp.MustCompile(`/\{[a-zA-Z0-9-_]+\}`)
+var regexToFindPathParameters = regexp.MustCompile(`/\\\{[a-zA-Z0-9-_]+\\\}`)
 
 type HAProxyEndpointData struct {
 	Endpoint     string
@@ -138,9 +138,9 @@ func HaproxyEndpointFormat(
 	requirements *stream_types.ProcessorRequirement,
 ) *HAProxyEndpointData {
 	log.Trace().Msgf("Original URL: %v", url)
-	url = strings.ReplaceAll(url, ".", `\.`)
+	url = regexp.QuoteMeta(url)
 	formattedURL := url
-	wildcardLiteral := "/*"
+	wildcardLiteral := `/\*`
 	var hasWildcard bool
 	if strings.HasSuffix(formattedURL, wildcardLiteral) {
 		hasWildcard = true
